@@ -94,8 +94,9 @@ def obj_decl_hook(wp, v, init):
             wp.env[f'{nm}.{vec}.size'] = V('0', 'Int', 'unsigned long')
     if isinstance(val, Obj):
         wp.env[v['name']] = val
-        if val.kind == 'stats' and wp.real:      # stats_t::m_mean of a statistics block: uninterpreted M(cell)
-            wp.env[f'{v["name"]}.m_mean'] = V(f'(M {" ".join(val["of"]["idx"])})', 'Real', 'double')
+        if val.kind == 'stats' and wp.real:      # every member of stats_t (field list read from the AST): member k of the
+            for k, fld in enumerate(stats_fields()):   # record loaded from a cell is element k of that cell's block, B(cell, k)
+                wp.env[f'{v["name"]}.{fld}'] = V(f'(B {" ".join(val["of"]["idx"])} {k})', 'Real', 'double')
         return True
     raise Unsupported(f'{wp.name}: local {v["name"]} of type {v["type"].get("qualType")}')
 
@@ -281,6 +282,69 @@ def m_stats_call(wp, n, args, obj):
     return Obj('stats', of=Obj('view', base='self.m_values', idx=cell(wp, t.t, f.t, sp.t, vl.t)))
 
 
+_STATS_FIELDS = []
+
+
+def stats_fields():
+    """members of ml::stats_t in declaration order, read from clang's AST of the real header"""
+    if not _STATS_FIELDS:
+        docs = astload.dump('src/machine/stats.cpp', 'nano::ml::stats_t')
+        for d in docs:
+            for n in astload.walk(d):
+                if n.get('kind') == 'CXXRecordDecl' and n.get('name') == 'stats_t' and n.get('completeDefinition'):
+                    flds = [c['name'] for c in n.get('inner', []) if c.get('kind') == 'FieldDecl']
+                    if flds and not _STATS_FIELDS:
+                        _STATS_FIELDS.extend(flds)
+        if not _STATS_FIELDS:
+            raise astload.ExtractionError('ml::stats_t: no field found')
+    return _STATS_FIELDS
+
+
+def stat_of_field(fld):
+    """spec: which statistic of the per-sample values a member of stats_t is, by its name"""
+    m = re.fullmatch(r'm_per(\d\d)', fld)
+    if m:
+        return f'(Vper {int(m.group(1))}.0)'
+    return {'m_mean': 'Vmean', 'm_stdev': 'Vstdev', 'm_count': '(to_real Vsize)'}.get(fld)
+
+
+def c_block_at(wp, n, args, callee):
+    """block(k) with a literal k on a rank-1 statistics block: element k (index inside the 12-element block: obligation)"""
+    arr = array_name(wp, args[0])
+    k = wp.ev(args[1])
+    if not re.fullmatch(r'\d+', k.t):
+        raise Unsupported(f'{wp.name}: statistics block indexed with a non-literal')
+    wp.oblige(f'{arr}({k.t}): index inside the statistics block', f'(and (<= 0 {k.t}) (< {k.t} {dim(wp, arr, 0)}))', n)
+    key = f'{arr}.blk.{k.t}'
+    if wp.want_loc:
+        wp.written.append(int(k.t))
+        return key
+    if key not in wp.env:
+        raise Unsupported(f'{wp.name}: element {k.t} of {arr} is not modelled')
+    return wp.env[key]
+
+
+def m_values_stat(name):
+    def h(wp, n, args, obj):
+        if array_name(wp, obj) != 'values':
+            raise Unsupported(f'{wp.name}: {name}() of something else than the per-sample values')
+        return V(name, 'Real', 'double')
+    return h
+
+
+def c_percentile(wp, n, args, callee):
+    if array_name(wp, args[0]) != 'values':
+        raise Unsupported(f'{wp.name}: percentile of something else than the per-sample values')
+    return V(f'(Vper {wp.ev(args[1]).t})', 'Real', 'double')
+
+
+def stats_init_hook(wp, n):
+    """stats_t{a, b, ..}: aggregate initialisation, member k gets initialiser k"""
+    if n.get('kind') == 'InitListExpr' and strip_cv(qual(n['type'])).endswith('stats_t'):
+        return Obj('stats_rec', parts=[wp.ev(a) for a in n.get('inner', [])])
+    return None
+
+
 def enum_hook(wp, n):
     """enumerators are distinct symbolic integers (no reliance on their numeric values)"""
     if n.get('kind') == 'DeclRefExpr' and n['referencedDecl'].get('kind') == 'EnumConstantDecl':
@@ -321,9 +385,11 @@ def same_view(view, base, idx):
     return AND(*[f'(= {a} {b})' for a, b in zip(view['idx'], idx)])
 
 
-CALLS_R = [(r'^operator=\|.*tensor_t<', c_assign_tensor), (r'^store_stats\|', c_store_stats), (r'^load_stats\|', c_load_stats), (r'^operator\[\]\|.*std::vector', c_vec_index),
+CALLS_R = [(r'^operator\(\)\|[^|]*\|[^|]*tensor_(c|m)array_storage_t, double, 1(UL)?>$', c_block_at), (r'^percentile\|', c_percentile),
+           (r'^operator=\|.*tensor_t<', c_assign_tensor), (r'^store_stats\|', c_store_stats), (r'^load_stats\|', c_load_stats), (r'^operator\[\]\|.*std::vector', c_vec_index),
            (r'^operator=\|std::any &\(std::any &&\)', c_assign_any), (r'^move\|', c_move)]
-MEMBERS_R = [(r'^resize\|.*tensor', m_resize), (r'^slice\|.*tensor', m_slice), (r'^full\|.*tensor', m_full),
+MEMBERS_R = [(r'^mean\|.*tensor', m_values_stat('Vmean')), (r'^stdev\|.*tensor', m_values_stat('Vstdev')),
+             (r'^resize\|.*tensor', m_resize), (r'^slice\|.*tensor', m_slice), (r'^full\|.*tensor', m_full),
              (r'^emplace_back\|.*std::vector', m_emplace_back), (r'^stats\|.*result_t', m_stats_call),
              (r'^size\|.*tensor', m_size), (r'^tensor\|.*tensor', m_tensor), (r'^folds\|.*result_t', m_folds),
              (r'^trials\|.*result_t', m_trials)]
@@ -334,7 +400,8 @@ def mk(name, tu, flt, decl, select, setup, post, about, file, calls=CALLS_R, mem
     docs, fn = load(tu, flt, decl, select)
     if fn_of:
         fn = fn_of(fn)
-    wp = IdEnvWP(name, real=real, calls=calls, members=members, hooks=[enum_hook, temp_hook], invariants=invariants)
+    wp = IdEnvWP(name, real=real, calls=calls, members=members, hooks=[enum_hook, temp_hook, stats_init_hook], invariants=invariants)
+    wp.written = []
     wp.decl_hooks = (obj_decl_hook,) + tuple(wp.decl_hooks)
     wp.rec = []
     keys = wp.bind_params(fn)
@@ -514,10 +581,11 @@ def result_vcs():
         enum_param(wp, 'split', 'split_type')
         enum_param(wp, 'value', 'value_type')
         c = cell(wp, wp.t, 'k', wp.env['split'].t, wp.env['value'].t)
-        wp.decls.append('(declare-fun M (Int Int Int Int) Real)')     # stored mean of a cell
-        wp.decls.append('(declare-fun S (Int) Real)')                 # spec: S(k) = sum of the means of folds [0, k)
+        km = stats_fields().index('m_mean')                           # the record's mean is the "error" of a fold
+        wp.decls.append('(declare-fun B (Int Int Int Int Int) Real)') # element k of the statistics block stored in a cell
+        wp.decls.append('(declare-fun S (Int) Real)')                 # spec: S(k) = sum of the stored means of folds [0, k)
         wp.assume('(= (S 0) 0.0)')
-        wp.assume(f'(forall ((k Int)) (! (=> (>= k 0) (= (S (+ k 1)) (+ (S k) (M {c[0]} k {c[2]} {c[3]})))) :pattern ((S k))))')
+        wp.assume(f'(forall ((k Int)) (! (=> (>= k 0) (= (S (+ k 1)) (+ (S k) (B {c[0]} k {c[2]} {c[3]} {km})))) :pattern ((S k))))')
 
     def inv_value(wp):
         fold, folds = wp.env['fold'].t, wp.env['folds'].t
@@ -526,11 +594,54 @@ def result_vcs():
     inv_value.decreases = lambda wp, env: f'(- {env["folds"].t} {env["fold"].t})'
 
     def post_value(wp, rv):
-        return [('value(trial, split, value) == (sum over folds of mean(cell(trial, fold, split, value))) / folds()',
+        return [('value(trial, split, value) == (1 / folds()) * sum over folds of the mean stored in cell(trial, fold, split, value): every fold has the same weight',
                  f'(= {rv.t} (/ (S {wp.F}) (to_real {wp.F})))')]
     add(mk('result_t::value', TU_R, FLT_R, 'value', nparams(3), setup_value, post_value,
            'mean across folds of the stored statistic (double as Real)', SRC_R, invariants={1: inv_value}, real=True))
     vcs.append(value_defaults_vc())
+    vcs.append(values_defaults_vc())
+
+    # ---- store_stats(values, block) / load_stats(block): the record <-> block layout (member k of stats_t <-> element k)
+    def setup_block(wp, keys):
+        n = len(stats_fields())
+        tensor(wp, 'stats', 1, fixed=((0, n),))            # a cell of m_values: 12 elements (class invariant; assert in load_stats)
+        for nm, srt in (('Vmean', 'Real'), ('Vstdev', 'Real'), ('Vsize', 'Int')):
+            wp.decls.append(f'(declare-const {nm} {srt})')
+        wp.decls.append('(declare-fun Vper (Real) Real)')
+
+    def setup_store_stats(wp, keys):
+        setup_block(wp, keys)
+        tensor(wp, 'values', 1)
+        wp.assume(f'(= Vsize {dim(wp, "values", 0)})')
+
+    def post_store_stats(wp, rv):
+        flds = stats_fields()
+        out = [('every element of the block is written, once', 'true' if sorted(wp.written) == list(range(len(flds))) else 'false')]
+        for k, fld in enumerate(flds):
+            want = stat_of_field(fld)
+            have = wp.env.get(f'stats.blk.{k}')
+            out.append((f'element {k} of the block (member {fld} of the record) is the {fld[2:]} of the values',
+                        f'(= {have.t} {want})' if want is not None and have is not None else 'false'))
+        return out
+    add(mk('ml::store_stats', 'src/machine/stats.cpp', 'nano::ml::store_stats', 'store_stats', None, setup_store_stats, post_store_stats,
+           'statistics of the per-sample values, element k of the block = member k of stats_t', os.path.join(astload.REPO, 'src/machine/stats.cpp'), real=True))
+
+    def setup_load_stats(wp, keys):
+        setup_block(wp, keys)
+        for k in range(len(stats_fields())):
+            wp.env[f'stats.blk.{k}'] = wp.fresh('Real', f'blk{k}', 'double')
+        wp.blk = [wp.env[f'stats.blk.{k}'].t for k in range(len(stats_fields()))]
+
+    def post_load_stats(wp, rv):
+        flds = stats_fields()
+        ok = isinstance(rv, Obj) and rv.kind == 'stats_rec' and len(rv['parts']) == len(flds)
+        out = [('load_stats initialises every member of the record', 'true' if ok else 'false')]
+        if ok:
+            for k, fld in enumerate(flds):
+                out.append((f'member {fld} of the loaded record is element {k} of the block', f'(= {rv["parts"][k].t} {wp.blk[k]})'))
+        return out
+    add(mk('ml::load_stats', 'src/machine/stats.cpp', 'nano::ml::load_stats', 'load_stats', None, setup_load_stats, post_load_stats,
+           'member k of the record = element k of the block', os.path.join(astload.REPO, 'src/machine/stats.cpp'), real=True))
     return vcs, fns
 
 
@@ -549,6 +660,24 @@ def value_defaults_vc():
     return VC('result_t::optimum_trial/compares value(trial, split_type::valid, value_type::errors)',
               f'(assert (not {"true" if ok else "false"}))', about='the compared quantity is the mean validation error',
               source={'file': HDR_R}, group='result_t::optimum_trial')
+
+
+def values_defaults_vc():
+    """the tuner lambda of ml::tune reports result.values(range) with the default selectors: they must be (valid, errors)
+    for the tuner to minimise the mean *validation error* (same quantity optimum_trial() compares)"""
+    _, val = load(TU_R, FLT_R, 'values', nparams(3))
+    defaults = []
+    for p in [c for c in val['inner'] if c['kind'] == 'ParmVarDecl'][1:]:
+        d = [x for x in astload.walk(p) if x.get('kind') == 'DeclRefExpr' and x['referencedDecl'].get('kind') == 'EnumConstantDecl']
+        defaults.append(d[0]['referencedDecl']['name'] if d else None)
+    _, tune = load(TU_T, 'nano::ml::tune', 'tune', None)
+    lam = lambda_of(0)(tune)
+    calls = [c for c in astload.walk(lam) if c.get('kind') == 'CXXMemberCallExpr' and c['inner'][0].get('name') == 'values']
+    ok = defaults == ['valid', 'errors'] and len(calls) == 1 and \
+        [a.get('kind') for a in calls[0]['inner'][2:]] == ['CXXDefaultArgExpr', 'CXXDefaultArgExpr']
+    return VC('tune::tuner_callback/reports values(range, split_type::valid, value_type::errors) to the tuner',
+              f'(assert (not {"true" if ok else "false"}))', about='the tuner minimises the mean validation error',
+              source={'file': HDR_R}, group='tune::tuner_callback')
 
 
 def lemmas():
@@ -861,7 +990,17 @@ RESULT_A = dict(self_struct='struct nv_result', types=TYPES_R,
 def result_targets():
     opt = Fn('result_optimum_trial', TU_R, 'optimum_trial', flt=FLT_R, **RESULT_A)
     clo = Fn('result_closest_trial', TU_R, 'closest_trial', flt=FLT_R, **RESULT_A)
-    return [Target('optimum_trial', [opt], H_R, cbmc_flags=CADICAL), Target('closest_trial', [clo], H_R, cbmc_flags=CADICAL)]
+    vals = Fn('result_values', TU_R, 'values', flt=FLT_R, self_struct='struct nv_result',
+              types=[(r'^nano::tensor_range_t$', 'struct nv_range'), (r'^nano::ml::(split|value)_type$', 'int32_t'),
+                     (r'^nano::tensor1d_t$|tensor_vector_storage_t, double, 1', 'struct nv_vals')],
+              calls=[(r'^ctor\|(nano::tensor1d_t|nano::tensor_t<nano::tensor_vector_storage_t, double, 1>)\|void \((const )?(long|nano::tensor_size_t)', 'nv_vals_new({0})'),
+                     (r'^operator\(\)\|[^|]*\|[^|]*tensor_vector_storage_t, double, 1', '(*nv_vals_at({&0}, {1}))')],
+              members=[(r'^size\|.*tensor_range_t', '({self}->m_end - {self}->m_begin)'), (r'^begin\|.*tensor_range_t', '({self}->m_begin)'),
+                       (r'^end\|.*tensor_range_t', '({self}->m_end)'), (r'^value\|.*result_t', 'nv_result_value3({self}, {0}, {1}, {2})')],
+              # a defaulted selector is not the caller's selector: printed as a value no enumerator has
+              hooks=[lambda P, n: '(-1)' if n.get('kind') == 'CXXDefaultArgExpr' else None])
+    return [Target('optimum_trial', [opt], H_R, cbmc_flags=CADICAL), Target('closest_trial', [clo], H_R, cbmc_flags=CADICAL),
+            Target('values', [vals], H_R, cbmc_flags=CADICAL)]
 
 
 # ------------------------------------------------------------------------------------------------ back end A: tuner
@@ -1090,7 +1229,7 @@ def replay(rp):
     import replaylib
     out = {'reproduced': False, 'runs': []}
     tgt = rp.get('target', '')
-    which = 'result' if ('result' in tgt or 'tune::' in tgt or '_trial' in tgt) else 'tuner'
+    which = 'result' if any(k in tgt for k in ('result', 'tune::', '_trial', 'ml::', 'values')) else 'tuner'
     exe = replaylib.build_with_library('replay/C13_replay.cpp', 'C13_replay')
     rc, so, se = replaylib.run_driver(exe, [which], timeout=600)
     out['runs'].append({'which': which, 'exit': rc, 'output': so.strip()[-3000:]})
